@@ -128,7 +128,8 @@ func mgRetry(fset *token.FileSet, lhs []string, c *ast.CallExpr) (string, bool) 
 	if !ok {
 		return "", false
 	}
-	var inner *ast.CallExpr
+	var inner, firstCall *ast.CallExpr
+	var pre []string
 	defaultRetry := false
 	var retryOn, stopOn []string
 	var walk func(stmts []ast.Stmt, underIs string)
@@ -145,8 +146,19 @@ func mgRetry(fset *token.FileSet, lhs []string, c *ast.CallExpr) (string, bool) 
 			switch s := st.(type) {
 			case *ast.AssignStmt:
 				if len(s.Rhs) == 1 {
-					if ic, ok := s.Rhs[0].(*ast.CallExpr); ok && inner == nil {
-						inner = ic
+					if ic, ok := s.Rhs[0].(*ast.CallExpr); ok {
+						fn := src(fset, ic.Fun)
+						effectful := strings.HasPrefix(fn, "in.store.") || strings.HasPrefix(fn, "in.client.") || strings.HasPrefix(fn, "s.client.")
+						if inner == nil && effectful {
+							inner = ic
+							continue
+						}
+						if inner == nil && firstCall == nil {
+							firstCall = ic
+						}
+					}
+					if len(s.Lhs) == 1 { // a value computed inside the closure before the call (e.g. the remaining lifetime): kept as an assignment in front of the retry
+						pre = append(pre, fmt.Sprintf(".assign %s %s", strconv.Quote(oneLine(src(fset, s.Lhs[0]))), strconv.Quote(oneLine(src(fset, s.Rhs[0])))))
 					}
 				}
 			case *ast.IfStmt:
@@ -173,9 +185,12 @@ func mgRetry(fset *token.FileSet, lhs []string, c *ast.CallExpr) (string, bool) 
 	}
 	walk(fl.Body.List, "")
 	if inner == nil {
+		inner, pre = firstCall, nil
+	}
+	if inner == nil {
 		return "", false
 	}
-	return fmt.Sprintf(".retry %s %s %s %v %s %s", qs(lhs), strconv.Quote(oneLine(src(fset, inner.Fun))), qs(exprTexts(fset, inner.Args)), defaultRetry, qs(retryOn), qs(stopOn)), true
+	return strings.Join(append(pre, fmt.Sprintf(".retry %s %s %s %v %s %s", qs(lhs), strconv.Quote(oneLine(src(fset, inner.Fun))), qs(exprTexts(fset, inner.Args)), defaultRetry, qs(retryOn), qs(stopOn))), "\x00"), true
 }
 
 func mgStmts(fset *token.FileSet, stmts []ast.Stmt) []string {
@@ -197,7 +212,7 @@ func mgStmt(fset *token.FileSet, st ast.Stmt) []string {
 					return nil
 				}
 				if r, ok := mgRetry(fset, lhs, c); ok {
-					return []string{r}
+					return strings.Split(r, "\x00")
 				}
 				if fl, ok := c.Fun.(*ast.FuncLit); ok { // err := func() error { … }()
 					return append(append([]string{".closureBegin " + qs(lhs)}, mgStmts(fset, fl.Body.List)...), ".closureEnd")
@@ -220,7 +235,7 @@ func mgStmt(fset *token.FileSet, st ast.Stmt) []string {
 				return nil
 			}
 			if r, ok := mgRetry(fset, nil, c); ok {
-				return []string{r}
+				return strings.Split(r, "\x00")
 			}
 			return []string{fmt.Sprintf(".call [] %s %s %s", strconv.Quote(fn), qs(exprTexts(fset, c.Args)), qs(innerCalls(fset, c)))}
 		}
